@@ -100,7 +100,7 @@ def ingest(wt, pid, name):
     rc2, out2 = sh("cargo test --offline --workspace --no-fail-fast", cwd=VERIFY_WT, env=env)
     meta["suite_with_change"] = {"rc": rc2, "summary": test_summary(out2)}
     sh("git checkout -- . && git clean -fdq -e target", cwd=VERIFY_WT)
-    ok = rc0 == 0 and rc1 != 0 and rc2 == 0 and any(s[1] == 84 for s in meta["suite_with_change"]["summary"])
+    ok = rc0 == 0 and rc1 != 0 and rc2 == 0 and any(s[1] >= 84 for s in meta["suite_with_change"]["summary"])
     meta["confirmed"] = ok
     meta["ran"] = ["cargo test --offline --test seeded_demo (without change)", "git apply patch.diff", "cargo test --offline --test seeded_demo (with change)", "cargo test --offline --workspace --no-fail-fast (with change, demo removed)"]
     # what it needs to manifest: first paragraph (b) of SEEDED.md if present
@@ -182,7 +182,7 @@ def ingest_refactor(wt, pid, name):
     rc2, out2 = sh("cargo test --offline --workspace --no-fail-fast", cwd=VERIFY_WT, env={"CARGO_TARGET_DIR": TARGET})
     sh("git checkout -- . && git clean -fdq -e target", cwd=VERIFY_WT)
     summ = test_summary(out2)
-    ok = rc2 == 0 and any(x[1] == 84 for x in summ)
+    ok = rc2 == 0 and any(x[1] >= 84 for x in summ)
     meta = {"property": pid, "name": name, "kind": "behaviour-preserving refactoring (independent sub-agent)", "base_commit": sh(["git", "-C", REPO, "rev-parse", "HEAD"])[1].strip(),
             "suite_with_change": {"rc": rc2, "summary": summ}, "confirmed": ok, "lines_changed": len([l for l in diff.splitlines() if l[:1] in "+-" and l[:3] not in ("+++", "---")]),
             "ran": ["git apply patch.diff", "cargo test --offline --workspace --no-fail-fast"]}
